@@ -20,6 +20,7 @@ import (
 	"strings"
 	"syscall"
 	"time"
+	"unsafe"
 )
 
 // Result of one execution (or of a group of identical repetitions, Count > 1).
@@ -94,6 +95,108 @@ type ExecOpts struct {
 	Stdin   *string       // fed through a pipe (a non-seekable input), nil: no stdin
 }
 
+// ExecPty runs the real binary with a pseudo-terminal as standard output (through script(1)); the CR LF
+// line ends the terminal layer produces are turned back into LF. ok is false when script is not installed.
+func ExecPty(hr string, args []string, o ExecOpts) (res Result, ok bool) {
+	sp, err := exec.LookPath("script")
+	if err != nil {
+		return Result{}, false
+	}
+	q := func(s string) string { return "'" + strings.ReplaceAll(s, "'", `'\''`) + "'" }
+	line := q(hr)
+	for _, a := range args {
+		line += " " + q(a)
+	}
+	ctx, cancel := context.WithTimeout(context.Background(), 60*time.Second)
+	defer cancel()
+	cmd := exec.CommandContext(ctx, sp, "-qec", line, "/dev/null")
+	cmd.Dir = o.Dir
+	cmd.Env = BaseEnv()
+	for k, v := range o.Env {
+		cmd.Env = append(cmd.Env, k+"="+v)
+	}
+	var out bytes.Buffer
+	cmd.Stdout = &out
+	cmd.Stderr = &out
+	err = cmd.Run()
+	res.Out = strings.ReplaceAll(out.String(), "\r\n", "\n")
+	if ee, isExit := err.(*exec.ExitError); isExit {
+		res.Exit = ee.ExitCode()
+	} else if err != nil {
+		return res, false
+	}
+	res.Count = 1
+	return res, true
+}
+
+// ExecPtyStalled runs the real binary with a pseudo-terminal as standard output that nobody reads for the
+// given time (a terminal stopped with XOFF, a slow remote session): the program blocks in its writes once the
+// terminal buffer is full. Standard error is a pipe. CR LF from the terminal layer is turned back into LF.
+func ExecPtyStalled(hr string, args []string, o ExecOpts, stall time.Duration) (res Result, ok bool) {
+	m, err := os.OpenFile("/dev/ptmx", os.O_RDWR|syscall.O_NOCTTY, 0)
+	if err != nil {
+		return res, false
+	}
+	defer m.Close()
+	var unlock int32
+	if _, _, e := syscall.Syscall(syscall.SYS_IOCTL, m.Fd(), syscall.TIOCSPTLCK, uintptr(unsafe.Pointer(&unlock))); e != 0 {
+		return res, false
+	}
+	var n uint32
+	if _, _, e := syscall.Syscall(syscall.SYS_IOCTL, m.Fd(), syscall.TIOCGPTN, uintptr(unsafe.Pointer(&n))); e != 0 {
+		return res, false
+	}
+	sl, err := os.OpenFile(fmt.Sprintf("/dev/pts/%d", n), os.O_RDWR|syscall.O_NOCTTY, 0)
+	if err != nil {
+		return res, false
+	}
+	ctx, cancel := context.WithTimeout(context.Background(), 60*time.Second)
+	defer cancel()
+	cmd := exec.CommandContext(ctx, hr, args...)
+	cmd.Dir = o.Dir
+	cmd.Env = BaseEnv()
+	for k, v := range o.Env {
+		cmd.Env = append(cmd.Env, k+"="+v)
+	}
+	var serr bytes.Buffer
+	cmd.Stdout = sl
+	cmd.Stderr = &serr
+	if err := cmd.Start(); err != nil {
+		sl.Close()
+		return res, false
+	}
+	sl.Close()
+	time.Sleep(stall)
+	var out bytes.Buffer
+	done := make(chan struct{})
+	go func() {
+		buf := make([]byte, 65536)
+		for {
+			k, err := m.Read(buf)
+			out.Write(buf[:k])
+			if err != nil {
+				break
+			}
+		}
+		close(done)
+	}()
+	werr := cmd.Wait()
+	select {
+	case <-done:
+	case <-time.After(5 * time.Second):
+		return res, false
+	}
+	res.Out = strings.ReplaceAll(out.String(), "\r\n", "\n")
+	res.Serr = serr.String()
+	res.Count = 1
+	if ee, isExit := werr.(*exec.ExitError); isExit {
+		res.Exit = ee.ExitCode()
+	} else if werr != nil {
+		return res, false
+	}
+	return res, true
+}
+
 // Exec runs the real binary once.
 func Exec(hr string, args []string, o ExecOpts) Result {
 	if o.Timeout == 0 {
@@ -158,9 +261,12 @@ type ReadFault struct {
 }
 
 type FaultJob struct {
-	Args      []string    `json:"args"`
-	SinkLimit int         `json:"sink_limit"`
-	Reads     []ReadFault `json:"reads,omitempty"`
+	Args      []string `json:"args"`
+	SinkLimit int      `json:"sink_limit"`
+	// SinkKind: which error the sink returns once it fails: "" a made-up one, "epipe" / "enospc" / "closed" the
+	// real error values of a pipe without reader, a full device, a closed file
+	SinkKind string      `json:"sink_kind,omitempty"`
+	Reads    []ReadFault `json:"reads,omitempty"`
 }
 
 type ReaderState struct {
